@@ -136,6 +136,17 @@ Theorem C16_append_final_file : forall n128 (ents : list MocSetBytes.sentry) (e 
   nth 2 (MocSetBytes.append_steps n128 ents e (MocSetBytes.file_bytes n128 ents)) [] = MocSetBytes.file_bytes n128 (ents ++ [e]).
 Proof. exact MocSetBytesProofs.append_final_layout. Qed.
 
+(** a status change is the store of ONE metadata word: the file after it is the layout of the state in
+    which that entry has the new status (index and data untouched), so the file after any number of
+    the stores of a chgstatus decodes to a moc-set in which exactly those entries changed *)
+Theorem C16_status_store_decodes : forall n128 st (l1 : list MocSetBytes.sentry) e l2,
+  1 <= n128 -> (length (l1 ++ e :: l2) <= MocSetBytes.cap_of n128)%nat ->
+  Forall MocSetBytesProofs.entry_ok (l1 ++ e :: l2) ->
+  MocSetBytes.hdr_size n128 + N.of_nat (length (MocSetBytes.data_part (l1 ++ e :: l2))) < 2 ^ 64 ->
+  MocSetBytes.decode_file (MocSetBytes.chg_store (length l1) st (l1 ++ e :: l2) (MocSetBytes.file_bytes n128 (l1 ++ e :: l2)))
+  = (n128, l1 ++ MocSetBytes.set_status st e :: l2).
+Proof. exact MocSetBytesProofs.chg_store_decode. Qed.
+
 Print Assumptions C16_append_every_boundary_consistent.
 Print Assumptions C16_meta_before_data_refuted.
 Print Assumptions C16_status_stores_keep_data.
@@ -146,3 +157,4 @@ Print Assumptions C16_purge_every_boundary.
 Print Assumptions C16_purge_completed_view.
 Print Assumptions C16_append_writes_every_prefix_decodes.
 Print Assumptions C16_append_final_file.
+Print Assumptions C16_status_store_decodes.
